@@ -3,6 +3,7 @@ from __future__ import annotations
 
 from bisect import bisect_left
 from collections.abc import Iterable, Sequence, AsyncIterable
+from contextlib import AsyncExitStack
 from datetime import datetime
 from itertools import islice
 from weakref import finalize, WeakKeyDictionary, WeakValueDictionary
@@ -274,14 +275,19 @@ class MailboxData(MailboxDataInterface[Message]):
 
     async def move(self, uid: int, destination: MailboxData, *,
                    recent: bool = False) -> int | None:
-        async with self.messages_lock.write_lock():
+        # Hold both locks (in a fixed order) before changing anything, so
+        # that the message is never in neither mailbox.
+        both = sorted({id(self): self, id(destination): destination}.items())
+        async with AsyncExitStack() as stack:
+            for _, mbx in both:
+                await stack.enter_async_context(
+                    mbx.messages_lock.write_lock())
             try:
                 message = self._messages.pop(uid)
             except KeyError:
                 return None
             self._mod_sequences.expunge([uid])
             self._updated.set()
-        async with destination.messages_lock.write_lock():
             destination._max_uid = dest_uid = destination._max_uid + 1
             new_msg = Message.copy(message, uid=dest_uid, recent=recent)
             destination._messages[dest_uid] = new_msg
